@@ -522,7 +522,7 @@ pub fn drive_enc(spec: &EncSpec, mode: EncMode, source: &mut dyn OpSource, mut p
                 if offer.query {
                     if let Some(q) = query_for_enc(&encs[0], spec.form16, spec.repl, src_units) {
                         if q <= (1 << 20) {
-                            cap = q.max(min);
+                            cap = q.max(min) + offer.slack as usize;
                             by_query = true;
                             run.faults.query_exact += 1;
                         }
